@@ -422,6 +422,29 @@ class C09(Property):
         for name, obj in (('None', None), ('int', 3), ('float', 2.5), ('bool', True), ('object', object())):
             plain.append('  ("%s", %s, %s, %s, %s)' % (name, *('true' if b else 'false' for b in (
                 callable(obj), bool(iu.is_iterable(obj)), bool(iu.is_scalar(obj)), bool(iu.is_collection(obj))))))
+        import inspect
+        default_rows = []
+        for fname in ('chunked', 'chunk_ranges', 'windowed', 'windowed_iter', 'pairwise', 'pairwise_iter', 'split',
+                      'split_iter', 'lstrip', 'lstrip_iter', 'rstrip', 'rstrip_iter', 'strip', 'strip_iter',
+                      'unique', 'unique_iter', 'redundant', 'bucketize', 'partition'):
+            try:
+                params = inspect.signature(getattr(iu, fname)).parameters.values()
+            except Exception:
+                default_rows.append('  ("%s", "?", "?")' % fname)
+                continue
+            for prm in params:
+                if prm.default is inspect.Parameter.empty:
+                    continue
+                d = prm.default
+                if d is None or d is True or d is False or type(d) is int:
+                    text_d = repr(d)
+                elif d is bool:
+                    text_d = 'bool'
+                elif d is getattr(iu, '_UNSET', object()):
+                    text_d = '_UNSET'
+                else:
+                    text_d = 'other:' + type(d).__name__
+                default_rows.append('  ("%s", "%s", "%s")' % (fname, prm.name, text_d))
         chunk_rows = []
         for kind in KINDS3:
             try:
@@ -429,7 +452,7 @@ class C09(Property):
                 names = sorted({type(c).__name__ for c in ch})
                 tname = names[0] if len(names) == 1 else 'mixed'
             except Exception as e:      # the table then disagrees with the model and the theorem names it
-                tname = 'raises ' + type(e).__name__
+                tname = 'raises'
             chunk_rows.append('  ("%s", "%s")' % (kind, tname))
         text = ('/- GENERATED by harness/bv/props/c09.py (regen) from the live boltons.iterutils - do not edit.\n'
                 '   One row per kind of object: (kind, callable(obj), is_iterable(obj), is_scalar(obj),\n'
@@ -439,9 +462,12 @@ class C09(Property):
                 'def sepKindTable : List (String × Bool × Bool × Bool × Bool) := [\n%s]\n\n'
                 '/-- objects that hold nothing: `None` and item values -/\n'
                 'def plainTable : List (String × Bool × Bool × Bool × Bool) := [\n%s]\n\n'
+                '/-- (function, parameter, default value) of every optional parameter, from the live signatures -/\n'
+                'def defaultsTable : List (String × String × String) := [\n%s]\n\n'
                 '/-- (input kind, type of the chunks `chunked_iter` yields for an input of that kind) -/\n'
                 'def chunkTypeTable : List (String × String) := [\n%s]\n\n'
-                'end C09.Generated\n') % (',\n'.join(rows), ',\n'.join(plain), ',\n'.join(chunk_rows))
+                'end C09.Generated\n') % (',\n'.join(rows), ',\n'.join(plain), ',\n'.join(default_rows),
+                                          ',\n'.join(chunk_rows))
         return {'C09_SepKinds.lean': text}
 
     # ------------------------------------------------------------------ generation
@@ -1227,8 +1253,12 @@ class C09(Property):
         op = case['op']
         if op == 'chunked':
             # no chunk: no type observed, the model's answer for this input kind is taken over
-            ctype = getattr(v, 'ctype', None) or ('str' if case['kind'] == 'str' else
-                                                  'bytes' if case['kind'] == 'bytes' else 'list')
+            # the statement fixes the chunk type only where "concatenating gives back the input" needs it: str
+            # chunks for a str, bytes chunks for a bytes; for any other input the chunks are just sequences
+            if case['kind'] in ('str', 'bytes'):
+                ctype = getattr(v, 'ctype', None) or case['kind']
+            else:
+                ctype = 'seq'
             return 'ok %s %s' % (ctype, show_ll(v))
         if op in ('windowed', 'pairwise', 'split', 'pysplit') or (op == 'redundant' and case['groups']):
             return 'ok ' + show_ll(v)
